@@ -15,6 +15,7 @@ import (
 	"time"
 
 	"github.com/PelicanPlatform/classad/classad"
+	"github.com/bbockelm/cedar/ccb"
 	"github.com/bbockelm/cedar/client"
 	"github.com/bbockelm/cedar/security"
 	"github.com/bbockelm/cedar/server"
@@ -488,6 +489,119 @@ func TestC17ManagerStorms(t *testing.T) {
 			if e != "" {
 				t.Fatalf("C17 violated: %s (n=%d procs=%d)", e, n, procs)
 			}
+		}
+	})
+}
+
+// A CCB listener's broker stream: the broker sends a burst of reverse-connect requests, every one
+// is handled in its own goroutine and reports its result on the ONE broker stream while the
+// reader keeps reading. Every result must arrive as a well-formed control ad, exactly once.
+func runListenerBurst(n, deadEvery, procs int) string {
+	old := runtime.GOMAXPROCS(procs)
+	defer runtime.GOMAXPROCS(old)
+	bl, err := net.Listen("tcp", "127.0.0.1:0")
+	if err != nil {
+		return ""
+	}
+	defer bl.Close()
+	rl, err := net.Listen("tcp", "127.0.0.1:0") // the requester the listener is told to connect back to
+	if err != nil {
+		return ""
+	}
+	defer rl.Close()
+	dl, _ := net.Listen("tcp", "127.0.0.1:0") // an address nobody listens on
+	dead := dl.Addr().String()
+	_ = dl.Close()
+	var hellos int64
+	go func() {
+		for {
+			c, err := rl.Accept()
+			if err != nil {
+				return
+			}
+			go func(c net.Conn) {
+				defer c.Close()
+				_ = c.SetDeadline(time.Now().Add(3 * time.Second))
+				st := stream.NewStream(c)
+				if _, err := st.ReceiveCompleteMessage(context.Background()); err == nil {
+					atomic.AddInt64(&hellos, 1)
+				}
+			}(c)
+		}
+	}()
+	ctx, cancel := context.WithTimeout(context.Background(), 10*time.Second)
+	defer cancel()
+	lcfg := kit.BaseConfig(security.SecurityRequired, security.SecurityRequired, security.AuthClaimToBe)
+	l := ccb.NewListener(ccb.ListenerConfig{BrokerAddr: bl.Addr().String(), Security: lcfg, Name: "verif",
+		Handler: func(c net.Conn, _ ccb.InboundMeta) { _ = c.Close() }, DialTimeout: 3 * time.Second})
+	lctx, lcancel := context.WithCancel(ctx)
+	ldone := make(chan struct{})
+	go func() { _ = l.Run(lctx); close(ldone) }()
+	defer func() { lcancel(); <-ldone }()
+
+	conn, err := bl.Accept()
+	if err != nil {
+		return "C17 harness: broker accept: " + err.Error()
+	}
+	defer conn.Close()
+	_ = conn.SetDeadline(time.Now().Add(10 * time.Second))
+	st := stream.NewStream(conn)
+	bcfg := kit.BaseConfig(security.SecurityOptional, security.SecurityOptional, security.AuthClaimToBe)
+	bcfg.SessionCache = nil
+	if _, err := security.NewAuthenticator(bcfg, st).ServerHandshake(ctx); err != nil {
+		return "C17 harness: broker handshake: " + err.Error()
+	}
+	if _, err := ccb.ReadControlAd(ctx, st); err != nil {
+		return "C17 harness: registration ad: " + err.Error()
+	}
+	if err := ccb.WriteControlAd(ctx, st, ccb.NewAd(map[string]any{ccb.AttrCCBID: bl.Addr().String() + "#7", ccb.AttrClaimID: "cookie"})); err != nil {
+		return "C17 harness: registration reply: " + err.Error()
+	}
+	if !st.IsEncrypted() {
+		return "C17 harness: broker stream not encrypted"
+	}
+	go func() { // writer half of the broker: the burst
+		for i := 0; i < n; i++ {
+			target := rl.Addr().String()
+			if deadEvery > 0 && i%deadEvery == deadEvery-1 {
+				target = dead
+			}
+			_ = ccb.WriteControlAd(ctx, st, ccb.NewAd(map[string]any{ccb.AttrCommand: ccb.CommandRequest, ccb.AttrMyAddress: target,
+				ccb.AttrClaimID: fmt.Sprintf("connect-%d", i), ccb.AttrRequestID: fmt.Sprint(i)}))
+		}
+	}()
+	seen := map[string]bool{}
+	for len(seen) < n {
+		ad, err := ccb.ReadControlAd(ctx, st)
+		if err != nil {
+			return fmt.Sprintf("after %d of %d results the broker could not read the next result ad from the listener's stream: %v (concurrent result writers disturbed one another)", len(seen), n, err)
+		}
+		id := ccb.AdString(ad, ccb.AttrRequestID)
+		if id == "" {
+			continue // a heartbeat
+		}
+		if seen[id] {
+			return fmt.Sprintf("result for request %s reported twice", id)
+		}
+		seen[id] = true
+		want := fmt.Sprintf("connect-%s", id)
+		if got := ccb.AdString(ad, ccb.AttrClaimID); got != want {
+			return fmt.Sprintf("result for request %s carries connect id %q, want %q (ads mixed up)", id, got, want)
+		}
+	}
+	return ""
+}
+
+func TestC17ListenerBurst(t *testing.T) {
+	rapid.Check(t, func(t *rapid.T) {
+		n := rapid.IntRange(2, 60).Draw(t, "requests")
+		deadEvery := rapid.SampledFrom([]int{0, 2, 5}).Draw(t, "deadEvery")
+		procs := rapid.SampledFrom([]int{2, 4, 16}).Draw(t, "procs")
+		v := runListenerBurst(n, deadEvery, procs)
+		ev.Case("listener-burst", fmt.Sprintf("burst:%d/%d/%d", n, deadEvery, procs))
+		ev.Count("concurrent_result_writers", int64(n))
+		if v != "" {
+			t.Fatalf("C17 violated: %s (requests=%d deadEvery=%d procs=%d)", v, n, deadEvery, procs)
 		}
 	})
 }
